@@ -255,13 +255,18 @@ def eval_layer_histories(nodes, edges, hists, mode="direct", limit=None):
     wire_h = [enc_lr_history(lenc, h) for h in hists]
     rt = rules.regex_table(enc, lenc.pats, list(arch.modules))
     wire = [16, [g, rt, wire_h]]
-    res = common.model_run([wire])[0]
-    if res is None or res == common.SX_ERR:
+    res, wres = common.model_run([wire, [35, wire[1]]])      # fn 35: the same histories with the graph queries run by the worklist loops
+    if res is None or res == common.SX_ERR or wres is None or wres == common.SX_ERR:
         raise RuntimeError("model rejected layer case " + common.sx_dump(wire)[:300])
     out = []
-    for h, m in zip(hists, res):
+    for h, m, mw in zip(hists, res, wres):
         io = run_lr_impl(h, arch)
-        out.append((io, lenc.dec_loutcome(m)))
+        mo = lenc.dec_loutcome(m)
+        if mw == [9]:
+            mo = ("ERR", "model: worklist loop ran out of fuel")
+        elif lenc.dec_loutcome(mw) != mo:
+            mo = ("ERR", "model: worklist evaluation %r differs from comprehension evaluation %r" % (lenc.dec_loutcome(mw)[0], mo[0]))
+        out.append((io, mo))
     eval_layer_histories.last_observed = obs
     return out, ([16, [g, rt, wire_h[:8]]], res[:8])
 
